@@ -165,6 +165,187 @@ pub fn native_argument_survives<S: Src>(s: &mut S) {
     s.reached("c02.native_argument_survives");
 }
 
+
+// ---------------------------------------------------------------------------------------------
+// One collection from a constructed heap (function level: `RuntimeData::gc` called directly).
+// Where each object is rooted is solver-chosen; the oracle is reachability written from the
+// property text: an object survives iff it is reachable from the value stack or a global, and a
+// survivor's content is unchanged.
+
+fn registered(rig: &mut Rig, o: NonNull<CaoLangObject>) -> bool {
+    let n = rig.vm.runtime_data.verif_object_count();
+    let mut i = 0;
+    let mut found = false;
+    while i < n && i < 6 {
+        found |= rig.vm.runtime_data.verif_object(i) == Some(o);
+        i += 1;
+    }
+    found
+}
+
+/// root: bit 0 = value stack, bit 1 = global
+fn root(rig: &mut Rig, o: NonNull<CaoLangObject>, how: u8) {
+    if how & 1 != 0 {
+        rig.push(Value::Object(o));
+    }
+    if how & 2 != 0 {
+        rig.vm.runtime_data.verif_globals().push(Value::Object(o));
+    }
+}
+
+fn white(o: NonNull<CaoLangObject>) -> bool {
+    matches!(unsafe { &(*o.as_ptr()).marker }, GcMarker::White)
+}
+
+pub fn gc_step_strings<S: Src>(s: &mut S) {
+    let mut rig = rig();
+    let b0 = [s.u8() & 0x7f];
+    let b1 = [s.u8() & 0x7f];
+    let o0 = unguard(rig.vm.init_string(unsafe { std::str::from_utf8_unchecked(&b0) }).unwrap().into_inner());
+    let o1 = unguard(rig.vm.init_string(unsafe { std::str::from_utf8_unchecked(&b1) }).unwrap().into_inner());
+    let r0 = s.below(4);
+    let r1 = s.below(4);
+    // an unrelated scalar between them on the stack
+    root(&mut rig, o0, r0);
+    rig.push(Value::Integer(5));
+    root(&mut rig, o1, r1);
+    rig.vm.runtime_data.gc();
+    let expect = (r0 != 0) as usize + (r1 != 0) as usize;
+    assert!(rig.vm.runtime_data.verif_object_count() == expect, "C02.gc.exactly_the_unreachable_objects_are_collected");
+    if r0 != 0 {
+        assert!(registered(&mut rig, o0), "C02.gc.reachable_object_is_kept");
+        assert!(is_str(Value::Object(o0), &b0), "C02.reachable_string_unchanged_by_collection");
+        assert!(white(o0), "C02.gc.survivor_is_unmarked_for_the_next_cycle");
+    }
+    if r1 != 0 {
+        assert!(registered(&mut rig, o1), "C02.gc.reachable_object_is_kept");
+        assert!(is_str(Value::Object(o1), &b1), "C02.reachable_string_unchanged_by_collection");
+        assert!(white(o1), "C02.gc.survivor_is_unmarked_for_the_next_cycle");
+    }
+    std::mem::forget(rig);
+    s.reached("c02.gc_step_strings");
+}
+
+/// a table holding a string under key 1 (and, solver-chosen, holding itself under key 2: a cycle);
+/// the string survives iff the table or the string itself is rooted
+pub fn gc_step_table<S: Src>(s: &mut S) {
+    let mut rig = rig();
+    let b0 = [s.u8() & 0x7f];
+    let o0 = unguard(rig.vm.init_string(unsafe { std::str::from_utf8_unchecked(&b0) }).unwrap().into_inner());
+    let t = unguard(rig.vm.init_table().unwrap().into_inner());
+    let cyc = s.bool();
+    unsafe {
+        let tab = (*t.as_ptr()).as_table_mut().unwrap();
+        tab.insert(Value::Integer(1), Value::Object(o0)).unwrap();
+        if cyc {
+            tab.insert(Value::Integer(2), Value::Object(t)).unwrap();
+        }
+    }
+    let rt = s.below(4);
+    let r0 = s.below(4);
+    root(&mut rig, t, rt);
+    root(&mut rig, o0, r0);
+    rig.vm.runtime_data.gc();
+    let t_alive = rt != 0;
+    let s_alive = t_alive || r0 != 0;
+    assert!(
+        rig.vm.runtime_data.verif_object_count() == t_alive as usize + s_alive as usize,
+        "C02.gc.exactly_the_unreachable_objects_are_collected"
+    );
+    if t_alive {
+        assert!(registered(&mut rig, t), "C02.gc.reachable_object_is_kept");
+        let tab = unsafe { (*t.as_ptr()).as_table().unwrap() };
+        assert!(tab.len() == 1 + cyc as usize, "C02.reachable_table_unchanged_by_collection");
+        let v = tab.get(&Value::Integer(1)).copied().unwrap_or(Value::Nil);
+        assert!(is_str(v, &b0), "C02.value_held_by_a_reachable_table_survives");
+        assert!(white(t), "C02.gc.survivor_is_unmarked_for_the_next_cycle");
+    }
+    if s_alive {
+        assert!(registered(&mut rig, o0), "C02.gc.reachable_object_is_kept");
+        assert!(is_str(Value::Object(o0), &b0), "C02.reachable_string_unchanged_by_collection");
+        assert!(white(o0), "C02.gc.survivor_is_unmarked_for_the_next_cycle");
+    }
+    std::mem::forget(rig);
+    s.reached("c02.gc_step_table");
+}
+
+/// a closure with one closed upvalue holding a string: all three survive iff the closure is
+/// rooted (the string also if it is rooted itself)
+pub fn gc_step_closure<S: Src>(s: &mut S) {
+    use cao_lang::vm::runtime::cao_lang_object::CaoLangObjectBody;
+    let mut rig = rig();
+    let b0 = [s.u8() & 0x7f];
+    let o0 = unguard(rig.vm.init_string(unsafe { std::str::from_utf8_unchecked(&b0) }).unwrap().into_inner());
+    let up = unguard(rig.vm.runtime_data.init_upvalue(std::ptr::null_mut()).unwrap().into_inner());
+    let clo = unguard(rig.vm.init_closure(Handle::from_u32(3), 0).unwrap().into_inner());
+    unsafe {
+        if let CaoLangObjectBody::Upvalue(u) = &mut (*up.as_ptr()).body {
+            u.value = Value::Object(o0);
+            u.location = &mut u.value as *mut Value;
+        }
+        if let CaoLangObjectBody::Closure(c) = &mut (*clo.as_ptr()).body {
+            c.upvalues.push(up);
+        }
+    }
+    let rc = s.below(4);
+    let r0 = s.below(4);
+    root(&mut rig, clo, rc);
+    root(&mut rig, o0, r0);
+    rig.vm.runtime_data.gc();
+    let c_alive = rc != 0;
+    let s_alive = c_alive || r0 != 0;
+    assert!(
+        rig.vm.runtime_data.verif_object_count() == 2 * c_alive as usize + s_alive as usize,
+        "C02.gc.exactly_the_unreachable_objects_are_collected"
+    );
+    if c_alive {
+        assert!(registered(&mut rig, clo), "C02.gc.reachable_object_is_kept");
+        assert!(registered(&mut rig, up), "C02.variable_captured_by_a_reachable_closure_survives");
+        let v = unsafe {
+            match &(*up.as_ptr()).body {
+                CaoLangObjectBody::Upvalue(u) => *u.location,
+                _ => Value::Nil,
+            }
+        };
+        assert!(is_str(v, &b0), "C02.variable_captured_by_a_reachable_closure_survives");
+        assert!(white(clo) && white(up), "C02.gc.survivor_is_unmarked_for_the_next_cycle");
+    }
+    if s_alive {
+        assert!(registered(&mut rig, o0), "C02.gc.reachable_object_is_kept");
+        assert!(is_str(Value::Object(o0), &b0), "C02.reachable_string_unchanged_by_collection");
+    }
+    std::mem::forget(rig);
+    s.reached("c02.gc_step_closure");
+}
+
+/// StringLiteral executed directly (no dispatch loop) with a collection forced at any subset of
+/// its two allocations while another string is rooted (solver-chosen where)
+pub fn string_literal_under_gc<S: Src>(s: &mut S) {
+    let mut rig = rig();
+    let b = [s.u8() & 0x7f];
+    let o = unguard(rig.vm.init_string(unsafe { std::str::from_utf8_unchecked(&b) }).unwrap().into_inner());
+    let r = 1 + s.below(3);
+    root(&mut rig, o, r);
+    encode_str("cd", &mut rig.prog.data);
+    rig.prog.bytecode.extend_from_slice(&0u32.to_le_bytes());
+    let mask = s.below(4) as u64;
+    set_gc_schedule(mask);
+    let mut ip = 0usize;
+    let prog = std::mem::take(&mut rig.prog);
+    let res = cao_lang::verif_hooks::instr::instr_string_literal(&mut rig.vm, &mut ip, &prog);
+    set_gc_schedule(0);
+    assert!(res.is_ok(), "C02.fragment.succeeds_under_every_schedule");
+    assert!(registered(&mut rig, o), "C02.gc.reachable_object_is_kept");
+    assert!(is_str(Value::Object(o), &b), "C02.reachable_string_unchanged_by_collection");
+    let top = rig.stack_get(rig.stack_len() - 1);
+    assert!(is_str(top, b"cd"), "C02.fresh_string_survives_its_own_construction");
+    assert!(rig.vm.runtime_data.verif_object_count() == 2, "C02.no_reachable_object_collected");
+    std::mem::forget(res);
+    std::mem::forget(prog);
+    std::mem::forget(rig);
+    s.reached("c02.string_literal_under_gc");
+}
+
 crate::harnesses! {
     #[kani::stub(alloc::fmt::format, crate::stub_format)]
     c02_string_in_global_survives / 18 => rooted_string_survives::<_, 0>;
@@ -176,4 +357,12 @@ crate::harnesses! {
     c02_running_closure_survives / 18 => running_closure_survives;
     #[kani::stub(alloc::fmt::format, crate::stub_format)]
     c02_native_argument_survives / 18 => native_argument_survives;
+    #[kani::stub(alloc::fmt::format, crate::stub_format)]
+    c02_gc_step_strings / 8 => gc_step_strings;
+    #[kani::stub(alloc::fmt::format, crate::stub_format)]
+    c02_gc_step_table / 10 => gc_step_table;
+    #[kani::stub(alloc::fmt::format, crate::stub_format)]
+    c02_gc_step_closure / 8 => gc_step_closure;
+    #[kani::stub(alloc::fmt::format, crate::stub_format)]
+    c02_string_literal_under_gc / 8 => string_literal_under_gc;
 }
